@@ -15,3 +15,5 @@ import SJ.Props.TypedDepth
 #print axioms SJ.Props.TypedDepth.c14_typed_tower
 #print axioms SJ.Props.TypedDepth.c14_typed_value_depth
 #print axioms SJ.Props.TypedDepth.c14_typed_wrapper_depth
+#print axioms SJ.Props.C14.c14_stream_depth_restored
+#print axioms SJ.Props.C14.c14_stream_item_budget
